@@ -287,6 +287,7 @@ def run_harness(cfg, prof, mode, tier, seed, file_arg, timeout):
            "--driver", os.path.join(OCAML_OUT, cfg["driver"]["exe"]), "--out", out]
     if file_arg:
         cmd += ["--file", file_arg]
+    cmd += cfg.get("harness_args", [])
     rc, o = sh(cmd, cwd=ROOT, timeout=timeout)
     if rc != 0 or not os.path.exists(out):
         return None, "harness %s exited %d: %s" % (mode, rc, o[-2000:])
